@@ -496,15 +496,17 @@ impl World {
             truth: truth.clone(),
             sched: sched.clone(),
         };
-        let mut b = Pool::<Mgr>::builder(mgr).config(PoolConfig {
-            max_size: cfg.max,
-            timeouts: Timeouts::new(),
-            queue_mode: if cfg.lifo {
-                QueueMode::Lifo
-            } else {
-                QueueMode::Fifo
-            },
-        });
+        let mode = if cfg.lifo { QueueMode::Lifo } else { QueueMode::Fifo };
+        // the same configuration reached through different builder calls / call orders
+        // (a deterministic function of the configuration, so that replays agree)
+        let style = (cfg.max + cfg.pre.len() + 2 * cfg.postr.len() + 3 * cfg.postc.len() + cfg.lifo as usize) % 4;
+        let mut b = Pool::<Mgr>::builder(mgr);
+        b = match style {
+            0 => b.config(PoolConfig { max_size: cfg.max, timeouts: Timeouts::new(), queue_mode: mode }),
+            1 => b.max_size(cfg.max).queue_mode(mode),
+            2 => b.queue_mode(mode).max_size(cfg.max),
+            _ => b.queue_mode(mode).timeouts(Timeouts::new()).max_size(cfg.max).wait_timeout(None).create_timeout(None).recycle_timeout(None),
+        };
         if cfg.rt {
             b = b.runtime(Runtime::Tokio1);
         }
